@@ -13,6 +13,8 @@ import (
 	"k8s.io/apimachinery/pkg/api/resource"
 	metav1 "k8s.io/apimachinery/pkg/apis/meta/v1"
 	"k8s.io/apimachinery/pkg/runtime"
+	"k8s.io/client-go/informers"
+	kubefake "k8s.io/client-go/kubernetes/fake"
 	"k8s.io/klog/v2"
 	fwktype "k8s.io/kube-scheduler/framework"
 	"k8s.io/kubernetes/pkg/scheduler/framework"
@@ -23,8 +25,11 @@ import (
 	clocktesting "k8s.io/utils/clock/testing"
 
 	"github.com/koordinator-sh/koordinator/apis/extension"
+	koordfake "github.com/koordinator-sh/koordinator/pkg/client/clientset/versioned/fake"
+	koordinatorinformers "github.com/koordinator-sh/koordinator/pkg/client/informers/externalversions"
 	"github.com/koordinator-sh/koordinator/pkg/scheduler/apis/config"
 	"github.com/koordinator-sh/koordinator/pkg/scheduler/apis/config/validation"
+	"github.com/koordinator-sh/koordinator/pkg/scheduler/frameworkext"
 	"github.com/koordinator-sh/koordinator/pkg/scheduler/plugins/loadaware/estimator"
 )
 
@@ -49,20 +54,49 @@ func (c08Nominator) DeleteNominatedPodIfExists(*corev1.Pod)                     
 func (c08Nominator) UpdateNominatedPod(klog.Logger, *corev1.Pod, fwktype.PodInfo)           {}
 func (c08Nominator) NominatedPodsForNode(string) []fwktype.PodInfo                          { return nil }
 
-// c08NewFramework registers pl under the plugin's own name at the extension points the scheduler profile enables for it.
-func c08NewFramework(ctx context.Context, pl *Plugin, nodes []*corev1.Node) (framework.Framework, error) {
+// c08NewFramework registers the plugin under its own name at the extension points the scheduler profile enables for it.
+// viaNew = false: the plugin is pl, assembled by the harness.  viaNew = true: the registered factory is the package's
+// real New behind frameworkext.PluginFactoryProxy (as cmd/koord-scheduler registers it), called by the framework with
+// its own handle; the plugin it returns gets the case's cache (pl.podAssignCache) and is what the cycle runs.  When New
+// rejects the args (validation) the harness-assembled pl is registered instead and the error is returned.
+func c08NewFramework(ctx context.Context, pl *Plugin, nodes []*corev1.Node, viaNew bool) (framework.Framework, *Plugin, error, error) {
+	used := pl
+	var newErr error
 	factory := func(_ context.Context, _ runtime.Object, fh fwktype.Handle) (fwktype.Plugin, error) {
 		pl.handle = fh
 		return pl, nil
+	}
+	opts := []frameworkruntime.Option{
+		frameworkruntime.WithSnapshotSharedLister(newTestSharedLister(nil, nodes)),
+		frameworkruntime.WithPodNominator(c08Nominator{}),
+	}
+	if viaNew {
+		koordClientSet := koordfake.NewSimpleClientset()
+		extenderFactory, _ := frameworkext.NewFrameworkExtenderFactory(
+			frameworkext.WithKoordinatorClientSet(koordClientSet),
+			frameworkext.WithKoordinatorSharedInformerFactory(koordinatorinformers.NewSharedInformerFactory(koordClientSet, 0)))
+		proxyNew := frameworkext.PluginFactoryProxy(extenderFactory, New)
+		cs := kubefake.NewSimpleClientset()
+		opts = append(opts, frameworkruntime.WithClientSet(cs), frameworkruntime.WithInformerFactory(informers.NewSharedInformerFactory(cs, 0)))
+		factory = func(ctx context.Context, _ runtime.Object, fh fwktype.Handle) (fwktype.Plugin, error) {
+			p, err := proxyNew(ctx, pl.args, fh)
+			if err != nil {
+				newErr = err
+				pl.handle = fh
+				return pl, nil
+			}
+			used = p.(*Plugin)
+			used.podAssignCache = pl.podAssignCache
+			return used, nil
+		}
 	}
 	reg := []schedulertesting.RegisterPluginFunc{
 		schedulertesting.RegisterQueueSortPlugin(queuesort.Name, queuesort.New),
 		schedulertesting.RegisterBindPlugin(defaultbinder.Name, defaultbinder.New),
 		schedulertesting.RegisterPluginAsExtensions(Name, factory, "PreFilter", "Filter", "Reserve"),
 	}
-	return schedulertesting.NewFramework(ctx, reg, "koord-scheduler",
-		frameworkruntime.WithSnapshotSharedLister(newTestSharedLister(nil, nodes)),
-		frameworkruntime.WithPodNominator(c08Nominator{}))
+	fw, err := schedulertesting.NewFramework(ctx, reg, "koord-scheduler", opts...)
+	return fw, used, newErr, err
 }
 
 // the plugin-level part of a cycle (shared by all nodes) and the pod
@@ -304,9 +338,23 @@ func (c *c08Run) fwRun(t *testing.T, s c08FwShared, qs []c08Filter, now int64) {
 	}
 	ctx, cancel := context.WithCancel(context.Background())
 	defer cancel()
-	fw, err := c08NewFramework(ctx, pl, nodes)
+	verr := validation.ValidateLoadAwareSchedulingArgs(a)
+	fw, used, newErr, err := c08NewFramework(ctx, pl, nodes, c.viaNew)
 	if err != nil {
 		t.Fatalf("NewFramework: %v", err)
+	}
+	if c.viaNew {
+		switch {
+		case (newErr != nil) != (verr != nil):
+			t.Fatalf("New: %v, validation: %v", newErr, verr)
+		case newErr != nil:
+			h.Tag("fw-plugin:New-rejected-args")
+		default:
+			h.Tag("fw-plugin:built-by-New")
+			if len(used.vectorizer) != 2 || used.vectorizer[0] != corev1.ResourceCPU || used.vectorizer[1] != corev1.ResourceMemory {
+				t.Fatalf("New: vectorizer is not [cpu memory]: %v", used.vectorizer)
+			}
+		}
 	}
 	pod := s.pod.build(c.t0)
 	if s.daemon {
@@ -430,6 +478,10 @@ func TestVerifC08Framework(t *testing.T) {
 			c.cfg.f = [2]int64{c08Factor(r), c08Factor(r)}
 		}
 		c.cfg.specIDs = map[string]int{}
+		c.viaNew = idx%4 == 2 // every 4th case: the plugin of every cycle is built by the package's New, called by the framework
+		if c.viaNew {
+			h.Tag("case:plugin-built-by-New")
+		}
 		c.nNodes = r.Range(1, 3)
 		c.args = c.cfg.args()
 		c.vec = NewResourceVectorizerFromArgs(c.args)
@@ -531,7 +583,7 @@ func TestVerifC08FrameworkExhaustive(t *testing.T) {
 									if r == nil {
 										continue
 									}
-									c := &c08Run{h: h, r: r, t0: t0, shadow: map[int]*c08NodeShadow{}, pool: map[int]c08Pod{}, nNodes: 1}
+									c := &c08Run{h: h, r: r, t0: t0, shadow: map[int]*c08NodeShadow{}, pool: map[int]c08Pod{}, nNodes: 1, viaNew: idx%3 == 0}
 									c.cfg = c08Cfg{f: [2]int64{85, 70}, secSched: -1, secInit: -1, specIDs: map[string]int{}}
 									c.args = c.cfg.args()
 									c.vec = NewResourceVectorizerFromArgs(c.args)
